@@ -211,6 +211,95 @@ func propC07(c *Ctx) {
 		c.Check("R7.4", "do/decode-error-tested", do.Pos(), okDec, "an undecodable body is an error; `return nil` only after a successful decode")
 	}
 
+	// ---- R7.3 (lists) ---------------------------------------------------
+	// A result that is a JSON list decodes `null` into a nil slice, which looks like "nothing to attach".
+	// In the routines that attach receipts, logs and traces a null list is an error of its own: tested on
+	// every path that goes on (every batch element), with the failing arm leaving the routine.
+	for _, name := range []string{"(*Client).receipts", "(*Client).logs", "(*Client).traces"} {
+		fn := w.Fn("jrpc2", name)
+		lreg := NewRegion(fn)
+		fields := map[*types.Var]bool{}
+		lreg.AllInstrs(func(in ssa.Instruction) {
+			v, ok := in.(ssa.Value)
+			if !ok {
+				return
+			}
+			f, _ := loadedField(v)
+			if f == nil || f.Name() != "Result" || f.Pkg() == nil || f.Pkg() != fn.Pkg.Pkg {
+				return
+			}
+			if _, isSl := f.Type().Underlying().(*types.Slice); isSl {
+				fields[f] = true
+			}
+		})
+		for _, f := range sortedVars(fields) {
+			good, detail := false, "no test of "+f.Name()+" against nil (or emptiness) with an error arm"
+			lreg.AllInstrs(func(in ssa.Instruction) {
+				b, ok := in.(*ssa.BinOp)
+				if !ok || good {
+					return
+				}
+				var nullEdges []Edge
+				t, fl := boolEdges(b)
+				switch {
+				case (b.Op == token.EQL || b.Op == token.NEQ) && isNilConst(b.Y) && isLoadOfField(stripConv(b.X), f):
+					nullEdges = t
+					if b.Op == token.NEQ {
+						nullEdges = fl
+					}
+				default:
+					// len(X.Result) == 0 (or < 1) with an error arm covers null as well
+					arg, isLen := lenArg(b.X)
+					n, isK := constInt(b.Y)
+					if !isLen || !isK || !isLoadOfField(stripConv(arg), f) {
+						return
+					}
+					switch {
+					case b.Op == token.EQL && n == 0, b.Op == token.LSS && n == 1, b.Op == token.LEQ && n == 0:
+						nullEdges = t
+					case b.Op == token.NEQ && n == 0, b.Op == token.GTR && n == 0, b.Op == token.GEQ && n == 1:
+						nullEdges = fl
+					default:
+						return
+					}
+				}
+				if len(nullEdges) == 0 {
+					return
+				}
+				g := b.Parent()
+				for _, e := range nullEdges {
+					var okEdges []Edge
+					for _, s2 := range e.From.Succs {
+						if s2 != e.To {
+							okEdges = append(okEdges, Edge{e.From, s2})
+						}
+					}
+					if arm, _ := errorArmLeaves(g, e, okEdges, nil); !arm {
+						detail = "a null " + f.Name() + " list is passed over (the arm of the test does not leave with an error)"
+						return
+					}
+				}
+				// on every path that goes on
+				every, inLoop := passesEveryCompletedIteration(b)
+				if inLoop && !every {
+					detail = "the test does not run for every element of the batch"
+					return
+				}
+				if !inLoop {
+					for _, r := range returnsOf(g) {
+						vals := returnValues(r)
+						if len(vals) > 0 && isNilConst(vals[len(vals)-1]) && !dominatesInstr(b, r) {
+							detail = "a success return is reached without the test"
+							return
+						}
+					}
+				}
+				good, detail = true, "a null list is an error"
+			})
+			c.Check("R7.3", fmt.Sprintf("%s/null-list-result-is-an-error:%s", fnName(fn), typeOfField(f)), fn.Pos(), good, detail)
+		}
+	}
+
 	// ---- R7.5 ----------------------------------------------------------
 	c.Rule("R7.5", "block-map look-ups test ok; out-of-range block numbers are rejected before data is attached", 5)
 	for _, name := range []string{"(*Client).receipts", "(*Client).logs", "(*Client).traces"} {
@@ -1368,4 +1457,32 @@ func loopHeaderDominates(a, b ssa.Instruction) bool {
 		}
 	}
 	return false
+}
+
+// typeOfField: the name of the struct type that declares f (for construct names)
+func typeOfField(f *types.Var) string {
+	if currentWorld != nil {
+		for _, p := range currentWorld.Pkgs {
+			if p.Types != f.Pkg() {
+				continue
+			}
+			sc := p.Types.Scope()
+			for _, n := range sc.Names() {
+				tn, ok := sc.Lookup(n).(*types.TypeName)
+				if !ok {
+					continue
+				}
+				st, ok := tn.Type().Underlying().(*types.Struct)
+				if !ok {
+					continue
+				}
+				for i := 0; i < st.NumFields(); i++ {
+					if st.Field(i) == f {
+						return n + "." + f.Name()
+					}
+				}
+			}
+		}
+	}
+	return f.Name()
 }
